@@ -2,7 +2,9 @@
   MODEL of the MsgPack read scopes (include/bitserializer/msgpack_archive.h:470-960):
   CMsgPackReadObjectScope (mStartPos/mSize/mIndex/mCurrentKey cursor, FindValueByKey with
   wrap-around, ResetKey, OnFinishChildScope, VisitKeys, destructor skip loop),
-  CMsgPackReadArrayScope (mSize/mIndex, CheckEnd, destructor skip loop), MsgPackReadRootScope
+  CMsgPackReadArrayScope (mSize/mIndex, CheckEnd, destructor skip loop), CMsgPackReadBinaryScope (mSize/mIndex over the
+  payload of one `bin` value, opened by `OpenBinaryScope` of the root/array/object scope — which leaves a value of another
+  type in place and does not count it —, destructor skip loop), MsgPackReadRootScope
   (Finalize) and the deferred-error path of the destructors (an exception of SkipValue inside a
   destructor is caught, the first one is remembered in the SerializationContext and rethrown by
   MsgPackReadRootScope::Finalize) — over a TOKEN-level reader: the document is a list of tokens, a position is a token index. The byte-level
@@ -23,6 +25,8 @@ inductive Tok where
   | bin (bs : List Nat)
   | arr (n : Nat)
   | map (n : Nat)
+  | ext (ty : Int) (payload : List Nat)   -- ext family (fixext1..16, ext8/16/32) with a type other than -1
+  | ts (sec : Int) (ns : Nat)             -- ext type -1 in the timestamp 32 / timestamp 64 layout
   deriving Repr, DecidableEq
 
 /-- number of values that follow a header token -/
@@ -41,10 +45,12 @@ def skipN : List Tok → Nat → Option (List Tok)
 inductive Key where
   | str (s : List Nat)
   | int (v : Int)
+  | ts (sec : Int) (ns : Nat)
   deriving Repr, DecidableEq
 
 inductive Ty where
   | int | bool | str | flt | nil
+  | ts                                    -- target `CBinTimestamp`
   deriving Repr, DecidableEq
 
 inductive Err where
@@ -58,6 +64,8 @@ inductive Mis where
 /-- loaded scalar -/
 inductive Sc where
   | int (v : Int) | bool (b : Bool) | str (s : List Nat) | flt (b : Nat) | nil
+  | ts (sec : Int) (ns : Nat)             -- loaded `CBinTimestamp`
+  | byte (b : Nat)                        -- one byte delivered by a binary scope
   deriving Repr, DecidableEq
 
 structure Rd where
@@ -93,15 +101,18 @@ inductive Match where
   deriving Repr, DecidableEq
 
 /-- `ReadInteger` funnels booleans into integer targets and 0/1 into bool targets;
-    the int target of the ops is int64 and every generated integer fits it. -/
+    the int target of the ops is int64: an integer token outside its range (uint64 values ≥ 2^63) does not fit
+    (`ConvertByPolicy`, overflow policy ThrowError). `ReadValue(CBinTimestamp&)` loads ext type -1 only; an ext value
+    of another type goes to the mismatched-types policy like any other kind. -/
 def matchTy : Ty → Tok → Match
-  | .int, .int v => .val (.int v)
+  | .int, .int v => if -9223372036854775808 ≤ v ∧ v < 9223372036854775808 then .val (.int v) else .overflow
   | .int, .bool b => .val (.int (if b then 1 else 0))
   | .bool, .bool b => .val (.bool b)
   | .bool, .int v => if v = 0 then .val (.bool false) else if v = 1 then .val (.bool true) else .overflow
   | .str, .str s => .val (.str s)
   | .flt, .flt b => .val (.flt b)
   | .nil, .nil => .val .nil
+  | .ts, .ts s n => .val (.ts s n)
   | _, _ => .other
 
 /-- `ReadValue(T&)`: `some v` = true + value, `none` = false (value passed over, target untouched) -/
@@ -127,13 +138,47 @@ def Rd.readMapSize (r : Rd) : Except Err (Option Nat × Rd) :=
   | .map n :: _ => .ok (some n, { r with pos := r.pos + 1 })
   | t :: _ => do let r' ← r.mismatch t; pure (none, r')
 
-/-- `ReadKey`: only string / integer (/float/timestamp, not generated here) keys are supported -/
+/-- `ReadKey`: only string / integer / timestamp (/float, not generated here) keys are supported; an ext value of
+    another type is `ValueType::Ext`: unsupported -/
 def Rd.readKey (r : Rd) : Except Err (Key × Rd) :=
   match r.rest with
   | [] => .error .parsing
   | .str s :: _ => .ok (.str s, { r with pos := r.pos + 1 })
   | .int v :: _ => .ok (.int v, { r with pos := r.pos + 1 })
+  | .ts s n :: _ => .ok (.ts s n, { r with pos := r.pos + 1 })
   | _ :: _ => .error .parsing    -- "Unsupported key type"
+
+/-! ### `bin` values at the token level
+
+A `bin` value is ONE token. While a binary scope is open the token-level reader stands AT that token and the scope's
+`mIndex` is the offset in its payload (the real reader stands `index` bytes behind the end of the `bin` header); with
+`index = size = payload length` the real reader is at the end of the value, i.e. at token position + 1. -/
+
+/-- `ReadValueType() == ValueType::BinaryArray` (a peek; "No more values to read" at the end of the input) -/
+def Rd.isBinary (r : Rd) : Except Err Bool :=
+  match r.rest with
+  | [] => .error .parsing
+  | .bin _ :: _ => .ok true
+  | _ :: _ => .ok false
+
+/-- `ReadBinarySize`: the payload length of a `bin` value (the reader stays at the token, see above); any other value
+    goes to the mismatched-types policy (the scopes call it only after `ReadValueType()` said BinaryArray) -/
+def Rd.readBinarySize (r : Rd) : Except Err (Option Nat × Rd) :=
+  match r.rest with
+  | [] => .error .parsing
+  | .bin bs :: _ => .ok (some bs.length, r)
+  | t :: _ => do let r' ← r.mismatch t; pure (none, r')
+
+/-- `ReadBinary()`: byte `index` of the `bin` value the reader stands at. It fails only at the end of the input
+    ("No more values to read"): at the token level that is a payload shorter than `index + 1` bytes — unreachable from
+    the scopes (`CheckEnd` guards `SerializeValue`, the destructor loop stops at `mSize`, and `mSize` is the payload length) -/
+def Rd.readBinary (r : Rd) (index : Nat) : Except Err Nat :=
+  match r.rest with
+  | .bin bs :: _ =>
+    match bs[index]? with
+    | some b => .ok b
+    | none => .error .parsing
+  | _ => .error .parsing
 
 /-! ### object scope -/
 
@@ -209,6 +254,20 @@ def arrCloseLoop : Nat → Rd → Except Err Rd
 /-- `~CMsgPackReadArrayScope` (the body of its `try`) -/
 def arrClose (size index : Nat) (r : Rd) : Except Err Rd := arrCloseLoop (size - index) r
 
+/-! ### binary scope: the destructor skips the bytes that were not read -/
+
+/-- `for (; mIndex < mSize; ++mIndex) ReadBinary();` with `n = mSize - mIndex` iterations left -/
+def binCloseLoop : Nat → Nat → Rd → Except Err Unit
+  | 0, _, _ => .ok ()
+  | n + 1, index, r => do
+    let _ ← r.readBinary index
+    binCloseLoop n (index + 1) r
+
+/-- `~CMsgPackReadBinaryScope` (the body of its `try`): afterwards the reader is behind the `bin` value -/
+def binClose (size index : Nat) (r : Rd) : Except Err Rd := do
+  binCloseLoop (size - index) index r
+  pure { r with pos := r.pos + 1 }
+
 /-- `VisitKeys`: returns the keys in document order -/
 def visitLoop : Nat → Obj → Rd → List Key → Except Err (List Key × Obj × Rd)
   | 0, o, r, acc => .ok (acc.reverse, o, r)
@@ -227,6 +286,7 @@ inductive Scope where
   | root
   | obj (o : Obj)
   | arr (size index : Nat)
+  | bin (size index : Nat)
   deriving Repr, DecidableEq
 
 inductive Req where
@@ -237,7 +297,10 @@ inductive Req where
   | next (ty : Ty)                 -- array/root: SerializeValue(v)
   | openArr                        -- array/root: OpenArrayScope
   | openObj                        -- array/root: OpenObjectScope
-  | isEnd                          -- array: IsEnd()
+  | isEnd                          -- array / binary: IsEnd()
+  | openBin                        -- array/root: OpenBinaryScope
+  | openBinK (k : Key)             -- object: OpenBinaryScope(key)
+  | readByte                       -- binary: SerializeValue(char / unsigned char)
   | close                          -- destroy the innermost scope
   deriving Repr, DecidableEq
 
@@ -291,6 +354,15 @@ def step (st : St) (req : Req) : Ans × St :=
     | .ok (some n, r) => (.opened n, { st with rd := r, stack := .obj ⟨r.pos, n, 0, none⟩ :: .root :: tl })
     | .ok (none, r) => (.no, { st with rd := r })
     | .error e => (.err e, st)
+  | .root :: tl, .openBin =>
+    match st.rd.isBinary with
+    | .error e => (.err e, st)
+    | .ok false => (.no, st)       -- a value of another type is left in place
+    | .ok true =>
+      match st.rd.readBinarySize with
+      | .ok (some n, r) => (.opened n, { st with rd := r, stack := .bin n 0 :: .root :: tl })
+      | .ok (none, r) => (.no, { st with rd := r })
+      | .error e => (.err e, st)
   -- array scope --------------------------------------------------------------------------
   | .arr size index :: tl, .next ty =>
     match checkEnd size index with
@@ -316,6 +388,18 @@ def step (st : St) (req : Req) : Ans × St :=
       | .ok (some n, r) => (.opened n, { st with rd := r, stack := .obj ⟨r.pos, n, 0, none⟩ :: .arr size (index + 1) :: tl })
       | .ok (none, r) => (.no, { st with rd := r, stack := .arr size (index + 1) :: tl })
       | .error e => (.err e, st)
+  | .arr size index :: tl, .openBin =>
+    match checkEnd size index with
+    | .error e => (.err e, st)
+    | .ok () =>
+      match st.rd.isBinary with
+      | .error e => (.err e, st)
+      | .ok false => (.no, st)     -- a value of another type is left in place and NOT counted (`mIndex` unchanged)
+      | .ok true =>
+        match st.rd.readBinarySize with
+        | .ok (some n, r) => (.opened n, { st with rd := r, stack := .bin n 0 :: .arr size (index + 1) :: tl })
+        | .ok (none, r) => (.no, { st with rd := r, stack := .arr size (index + 1) :: tl })
+        | .error e => (.err e, st)
   | .arr size index :: _, .isEnd => (.flag (index = size), st)
   | .arr size index :: tl, .close =>
     match arrClose size index st.rd with
@@ -346,6 +430,20 @@ def step (st : St) (req : Req) : Ans × St :=
       | .ok (some n, r') => (.opened n, { st with rd := r', stack := .obj ⟨r'.pos, n, 0, none⟩ :: .obj o' :: tl })
       | .ok (none, r') => (.no, { st with rd := r', stack := .obj o'.onFinishChild :: tl })
       | .error e => (.err e, st)
+  | .obj o :: tl, .openBinK k =>
+    match findValueByKey k o st.rd with
+    | .error e => (.err e, st)
+    | .ok (false, o', r) => (.no, { st with rd := r, stack := .obj o' :: tl })
+    | .ok (true, o', r) =>
+      match r.isBinary with
+      | .error e => (.err e, st)
+      -- a value of another type is left in place: `mCurrentKey` stays set, the reader stays at the value
+      | .ok false => (.no, { st with rd := r, stack := .obj o' :: tl })
+      | .ok true =>
+        match r.readBinarySize with
+        | .ok (some n, r') => (.opened n, { st with rd := r', stack := .bin n 0 :: .obj o' :: tl })
+        | .ok (none, r') => (.no, { st with rd := r', stack := .obj o'.onFinishChild :: tl })
+        | .error e => (.err e, st)
   | .obj o :: tl, .visit =>
     match objVisit o st.rd with
     | .ok (ks, o', r) => (.keys ks, { st with rd := r, stack := .obj o' :: tl })
@@ -354,6 +452,22 @@ def step (st : St) (req : Req) : Ans × St :=
     match objClose o st.rd with
     | .ok (_, r) => (.closed, { st with rd := r, stack := notifyParent tl })
     -- SkipValue threw inside ~CMsgPackReadObjectScope: caught, deferred; the base destructor still notifies the parent
+    | .error e => (.closed, { rd := st.rd.atEnd, stack := notifyParent tl, deferred := deferError st.deferred e })
+  -- binary scope -------------------------------------------------------------------------
+  | .bin size index :: tl, .readByte =>
+    match checkEnd size index with
+    | .error e => (.err e, st)
+    | .ok () =>
+      match st.rd.readBinary index with
+      | .ok b => (.val (.byte b), { st with stack := .bin size (index + 1) :: tl })
+      | .error e => (.err e, st)
+  | .bin size index :: _, .isEnd => (.flag (index = size), st)
+  | .bin size index :: tl, .close =>
+    -- only the binary scope of an OBJECT scope has a parent to notify (the array scope and the root pass none;
+    -- `notifyParent` does nothing for them)
+    match binClose size index st.rd with
+    | .ok r => (.closed, { st with rd := r, stack := notifyParent tl })
+    -- ReadBinary threw inside ~CMsgPackReadBinaryScope (end of the input): caught, deferred
     | .error e => (.closed, { rd := st.rd.atEnd, stack := notifyParent tl, deferred := deferError st.deferred e })
   | _, _ => (.badReq, st)
 
